@@ -337,48 +337,79 @@ r_domain.NAME = 'R-DOMAIN'
 def level_map_by_name(P, R):
     """copy_bdd: {source level of var: target level of var}, by name."""
     f = P.func('dd.bdd.copy_bdd')
+    params = f.params
     dc = [n for n in au.walk_no_defs(f.node) if isinstance(n, ast.DictComp)]
-    ok = False
-    if len(dc) == 1:
+    verdict = None
+    if len(dc) == 1 and len(params) >= 3:
         d = dc[0]
-        k = au.src(d.key).replace(' ', '')
-        v = au.src(d.value).replace(' ', '')
+        src_m, tgt_m = params[1], params[2]
         g = d.generators[0]
+
+        def level_of(e):
+            """(manager, variable) of `<mgr>.level_of_var(x)` or
+            `<mgr>.vars[x]`."""
+            if isinstance(e, ast.Call) and au.call_name(
+                    e) == 'level_of_var' and e.args:
+                return au.call_recv(e)[0], au.src(e.args[0])
+            if isinstance(e, ast.Subscript) and au.chain(
+                    e.value) and au.chain(e.value)[-1] == 'vars':
+                return au.chain(e.value)[0], au.src(e.slice)
+            return None
+        k, v = level_of(d.key), level_of(d.value)
         var = au.src(g.target)
-        it = au.src(g.iter).replace(' ', '')
-        ok = (k == f'from_bdd.level_of_var({var})'
-              and v == f'to_bdd.level_of_var({var})'
-              and it == 'from_bdd.vars')
-    if ok:
+        if k and v and k[1] == v[1] == var:
+            if (k[0], v[0]) == (src_m, tgt_m):
+                verdict = True
+            elif (k[0], v[0]) == (tgt_m, src_m):
+                verdict = False
+            elif k[0] == v[0]:
+                verdict = False
+    if verdict is True:
         R.holds('R-DOMAIN', f.qualname, 'level map: source level of each '
                 'source variable -> target level of the same name')
-    else:
+    elif verdict is False:
         R.violation(
             'R-DOMAIN', 'level-map', f.qualname, 'level_map',
-            'the level map of copy_bdd no longer maps the source level of '
-            'each variable name to the target level of the same name',
+            'the level map of copy_bdd does not map the source level of '
+            'each variable name to the target level of the same name '
+            f'(`{au.short(dc[0], 90)}`)',
             unit=f.unit.rel, line=f.lineno)
+    else:
+        R.undecided('R-DOMAIN', f.qualname, 'level map',
+                    'unrecognised form')
     if R.prop == 'C04':
         g = P.func('dd.bdd.rename')
         dc = [n for n in au.walk_no_defs(g.node)
               if isinstance(n, ast.DictComp)]
-        ok = False
+        verdict = None
         if len(dc) == 1:
             d = dc[0]
-            k = au.src(d.key).replace(' ', '')
-            v = au.src(d.value).replace(' ', '')
             it = au.src(d.generators[0].iter).replace(' ', '')
-            ok = (k == 'levels[var]' and v == 'levels[dvars.get(var,var)]'
-                  and it == 'bdd.vars')
-        if ok:
+            v = d.value
+            total = it in ('bdd.vars', 'levels', 'bdd.vars.keys()')
+            default_id = any(
+                isinstance(c, ast.Call) and au.call_name(c) == 'get'
+                and len(c.args) == 2 and au.src(c.args[0]) == au.src(
+                    c.args[1]) for c in ast.walk(v))
+            if total and default_id:
+                verdict = True
+            elif not total or not any(
+                    isinstance(c, ast.Call) and au.call_name(c) == 'get'
+                    for c in ast.walk(v)):
+                verdict = False
+        if verdict is True:
             R.holds('R-DOMAIN', g.qualname, 'rename builds a total level '
                     'map with identity default')
-        else:
+        elif verdict is False:
             R.violation(
                 'R-DOMAIN', 'level-map', g.qualname, 'dvars',
                 'rename no longer builds a total level map (identity for '
-                'variables that are not renamed)', unit=g.unit.rel,
+                'variables that are not renamed): nodes of other '
+                'variables lose their level', unit=g.unit.rel,
                 line=g.lineno)
+        else:
+            R.undecided('R-DOMAIN', g.qualname, 'level map',
+                        'unrecognised form')
 
 
 def pickle_level_map(P, R):
